@@ -526,7 +526,7 @@ func (s *Server) attachClient(cl *Client, listener string) error {
 		s.sendLWT(cl)
 		cl.Stop(err)
 	} else {
-		cl.Properties.Will = Will{} // [MQTT-3.14.4-3] [MQTT-3.1.2-10]
+		atomic.StoreUint32(&cl.Properties.Will.Flag, 0) // [MQTT-3.14.4-3] [MQTT-3.1.2-10]
 	}
 	s.Log.Debug("client disconnected", "error", err, "client", cl.ID, "remote", cl.Net.Remote, "listener", listener)
 
@@ -1852,7 +1852,7 @@ func (s *Server) sendDelayedLWT(dt int64) {
 				if pk.FixedHeader.Retain {
 					s.retainMessage(cl, pk)
 				}
-				cl.Properties.Will = Will{} // [MQTT-3.1.2-10]
+				atomic.StoreUint32(&cl.Properties.Will.Flag, 0) // [MQTT-3.1.2-10] (the flag is what every reader tests, atomically)
 				s.hooks.OnWillSent(cl, pk)
 			}
 			s.loop.willDelayed.Delete(id)
